@@ -35,3 +35,34 @@ def diff(FA, FB, ignore=()):
         if fingerprint(a[n]) != fingerprint(b[n]):
             changed.append(n)
     return {"only_a": only_a, "only_b": only_b, "changed": changed, "common": common}
+
+
+def leaf_diffs(a, b, path=""):
+    """Leaf-level differences between two JSON trees, ignoring spans and ids."""
+    out = []
+    if isinstance(a, dict) and isinstance(b, dict):
+        for k in sorted(set(a) | set(b)):
+            if k in ("sp", "id"):
+                continue
+            if k not in a or k not in b:
+                out.append((path + "/" + k, a.get(k), b.get(k)))
+            else:
+                out.extend(leaf_diffs(a[k], b[k], path + "/" + k))
+    elif isinstance(a, list) and isinstance(b, list):
+        if len(a) != len(b):
+            out.append((path + "/len", len(a), len(b)))
+        for i, (x, y) in enumerate(zip(a, b)):
+            out.extend(leaf_diffs(x, y, path + "/%d" % i))
+    else:
+        x = _CLOSURE.sub("{closure}", a) if isinstance(a, str) else a
+        y = _CLOSURE.sub("{closure}", b) if isinstance(b, str) else b
+        if x != y:
+            out.append((path, a, b))
+    return out
+
+
+def node_at(tree, path):
+    cur = tree
+    for p in [x for x in path.split("/") if x]:
+        cur = cur[int(p)] if isinstance(cur, list) else cur[p]
+    return cur
